@@ -418,6 +418,20 @@ func (w *Wallet) syncWithChain(birthdayStamp *waddrmgr.BlockStamp) error {
 		log.Debug("Chain backend synced to tip!")
 	}
 
+	// An earlier attempt that failed further down may already have located
+	// and persisted the birthday block. Locating and persisting it a second
+	// time would fail, as the block before it is not stored.
+	if birthdayStamp == nil {
+		_ = walletdb.View(w.db, func(tx walletdb.ReadTx) error {
+			ns := tx.ReadBucket(waddrmgrNamespaceKey)
+			block, verified, err := w.Manager.BirthdayBlock(ns)
+			if err == nil && verified {
+				birthdayStamp = &block
+			}
+			return nil
+		})
+	}
+
 	// If we've yet to find our birthday block, we'll do so now.
 	if birthdayStamp == nil {
 		var err error
